@@ -188,6 +188,49 @@ def sink_contracts():
     return cs
 
 
+def yaqlize_contracts():
+    """yaqlization.yaqlize: settings are attached ONCE - to something that
+    has none yet, however it would come by them (its own, its class's, a base
+    class's): auto-yaqlization of results relies on it not to replace the
+    restrictions of an already yaqlized object with permissive defaults."""
+    cs = []
+    HAS = 'ufn("has___yaqlization__", something, ret="Bool")'
+    SA = '[e for e in calls if e[0] == "setattr"]'
+    BS = ('[e for e in calls if e[0] == '
+          '"contract:yaqlization.build_yaqlization_settings"]')
+    names = ['yaqlize_attributes', 'yaqlize_methods', 'yaqlize_indexer',
+             'auto_yaqlize_result', 'whitelist', 'blacklist',
+             'attribute_remapping']
+    cs.append(Contract(
+        'yaql.yaqlization.yaqlize.<locals>.func',
+        name='yaqlization.yaqlize.func',
+        params=dict(something=TVal),
+        env={n: _tv(n) for n in names},
+        ensures=['result is something',
+                 'implies(%s, len(%s) == 0)' % (HAS, SA),
+                 'implies(not %s, len(%s) == 1 and %s[0][1][0] == something '
+                 'and %s[0][1][1] == "__yaqlization__" and len(%s) == 1 and '
+                 '%s[0][1][2] == %s[0][2])' % (HAS, SA, SA, SA, BS, SA, BS)],
+        serves=('C07',), native=False))
+    return cs
+
+
+class _tv:
+    is_factory = True
+
+    def __init__(self, base):
+        self.base = base
+
+    def __call__(self, name, path):
+        return TVal.fresh(self.base)
+
+
+def setup_yaqlize(world):
+    setup(world)
+    world.callee_contract('yaql.yaqlization.build_yaqlization_settings',
+                          result=TVal)
+
+
 def setup_settings(world):
     setup(world)
     world.symbolic_sets = True
